@@ -153,6 +153,15 @@ class RefServer:
             return ("quit",), rest
         if v == b"stats":
             return ("stats", tuple(args)), rest
+        if v == b"cache_memlimit":
+            a, noreply = nr(args)
+            if len(a) != 1 or _nat(a[0]) is None:
+                return bad
+            return ("cache_memlimit", _nat(a[0]), noreply), rest
+        if v == b"shutdown":
+            if args not in ([], [b"graceful"]):
+                return bad
+            return ("shutdown", bool(args)), rest
         return bad
 
     # ---- semantics -----------------------------------------------------------------------------
@@ -252,5 +261,44 @@ class RefServer:
             self.closed_conns.add(cid)
             return b""
         if kind == "stats":
-            return b"STAT pid 1\r\nSTAT curr_items " + str(len(s.items)).encode() + b"\r\nEND\r\n"
+            return self.stats(req[1])
+        if kind == "cache_memlimit":
+            _, mb, noreply = req
+            self.memlimit_mb = mb
+            return b"" if noreply else b"OK\r\n"
+        if kind == "shutdown":
+            # a server started without --enable-shutdown (the default): the client sees a line starting with `ERROR`
+            return b"ERROR: shutdown not enabled\r\n"
+        return b"ERROR\r\n"
+
+    def stats(self, args):
+        """`stats [items | slabs | sizes | settings | cachedump <slab> <limit> | reset]`, deterministic (keys in sorted order).
+        The values cover every converter of pymemcache's STAT_TYPES (bytes, float, 0/1 booleans, octal, yes/no) and the default int."""
+        s = self.store
+        live = sorted(k for k in list(s.items) if s.live(k) is not None)
+
+        def stat(lines):
+            return b"".join(b"STAT " + k + b" " + v + b"\r\n" for k, v in lines) + b"END\r\n"
+        if not args:
+            return stat([(b"pid", b"1"), (b"version", b"1.6.21-ref"), (b"rusage_user", b"0.250000"), (b"rusage_system", b"0.125000"),
+                         (b"curr_items", str(len(live)).encode()), (b"hash_is_expanding", b"0"), (b"slab_reassign_running", b"0"),
+                         (b"limit_maxbytes", str(getattr(self, "memlimit_mb", 64) * 1024 * 1024).encode())])
+        sub = args[0]
+        if sub == b"items" and len(args) == 1:
+            return stat([(b"items:1:number", str(len(live)).encode()), (b"items:1:age", b"0")] if live else [])
+        if sub in (b"slabs", b"sizes") and len(args) == 1:
+            return stat([(b"active_slabs", b"1" if live else b"0"), (b"total_malloced", b"1048576")] if sub == b"slabs" else [])
+        if sub == b"settings" and len(args) == 1:
+            return stat([(b"maxconns", b"1024"), (b"inter", b"NULL"), (b"growth_factor", b"1.25"), (b"stat_key_prefix", b":"), (b"umask", b"700"),
+                         (b"detail_enabled", b"no"), (b"cas_enabled", b"yes"), (b"auth_enabled_sasl", b"no"), (b"maxconns_fast", b"yes"),
+                         (b"slab_reassign", b"yes"), (b"slab_automove", b"1")])
+        if sub == b"cachedump":
+            if len(args) != 3 or _nat(args[1]) is None or _nat(args[2]) is None:
+                return b"CLIENT_ERROR bad command line\r\n"
+            limit = _nat(args[2])
+            keys = live if limit == 0 else live[:limit]
+            return b"".join(b"ITEM " + k + b" [" + str(len(s.items[k][2])).encode() + b" b; " + str(max(s.items[k][1], 0)).encode() + b" s]\r\n"
+                            for k in keys) + b"END\r\n"
+        if sub == b"reset" and len(args) == 1:
+            return b"RESET\r\n"
         return b"ERROR\r\n"
